@@ -200,6 +200,7 @@ impl EvalSpec {
 #[derive(Clone, Debug)]
 pub struct PrepSpec {
     pub n: u32,
+    pub rank: u32,
     pub word_bits: u32, // 8 or 16
     pub bit_start: usize,
     pub bit_count: usize,
@@ -208,12 +209,13 @@ pub struct PrepSpec {
 
 impl PrepSpec {
     pub fn to_json(&self) -> Value {
-        json!({"n": self.n, "word_bits": self.word_bits, "bit_start": self.bit_start, "bit_count": self.bit_count, "threads": self.threads})
+        json!({"n": self.n, "rank": self.rank, "word_bits": self.word_bits, "bit_start": self.bit_start, "bit_count": self.bit_count, "threads": self.threads})
     }
     pub fn from_json(v: &Value) -> PrepSpec {
         let u = |k: &str| v[k].as_u64().unwrap();
         PrepSpec {
             n: u("n") as u32,
+            rank: v["rank"].as_u64().unwrap_or(1) as u32,
             word_bits: u("word_bits") as u32,
             bit_start: u("bit_start") as usize,
             bit_count: u("bit_count") as usize,
@@ -495,12 +497,25 @@ macro_rules! backend_impl {
                             dsize: Dsize(1),
                         },
                     },
-                    ks_glwe_layout: None,
+                    // as in the crate's own parameters: a rank > 1 input is first switched down to rank 1
+                    ks_glwe_layout: if rank > 1 {
+                        Some(poulpy_core::layouts::GLWESwitchingKeyLayout {
+                            n: Degree(n),
+                            base2k: Base2K(4),
+                            k: TorusPrecision(20),
+                            rank_in: Rank(rank),
+                            rank_out: Rank(1),
+                            dnum: Dnum(3),
+                            dsize: Dsize(1),
+                        })
+                    } else {
+                        None
+                    },
                     ks_lwe_layout: GLWEToLWEKeyLayout {
                         n: Degree(n),
                         base2k: Base2K(4),
                         k: TorusPrecision(16),
-                        rank_in: Rank(rank),
+                        rank_in: Rank(1),
                         dnum: Dnum(3),
                     },
                 }
@@ -635,7 +650,7 @@ macro_rules! backend_impl {
                 }
 
                 fn prep(&self, spec: &PrepSpec, w: &Window, cfg: Option<sched::Config>) -> RunResult {
-                    let c = ctx(spec.n, 1);
+                    let c = ctx(spec.n, spec.rank.max(1));
                     let b = bdd_ctx(c);
                     let h0 = inputs_hash(c);
                     let f0 = module_fingerprint(c);
